@@ -35,6 +35,9 @@ CURATED = [
     [("/ab/{p1}", ["GET"]), ("/a/{p1}", ["GET"]), ("/a{p1}", ["POST"])],
     # issue-1161-like: static sibling sharing a prefix with what the parameter may hold
     [("/a/{p1}/b", ["GET"]), ("/a/ab/a", ["GET"]), ("/a/{p1}", ["POST"])],
+    # node with routes AND only parameter children (trailing-slash template next to a parameter)
+    [("/a/", ["GET", "POST"]), ("/a/{p1}", ["GET"]), ("/b", ["GET"])],
+    [("/a/b/", ["POST"]), ("/a/b/{p1}", ["GET", "POST"]), ("/a/b", ["GET"])],
     # sample.json-like multi-parameter template
     [("/n/{p1}.{p2}.j", ["GET"]), ("/n/{p1}", ["POST"]), ("/n/a.b.j", ["GET"])],
 ]
@@ -106,7 +109,7 @@ def data_go(routes):
 
 nrandom = 10 if tier == "quick" else 120
 sets = list(CURATED) + [random_set() for _ in range(nrandom)]
-packages, path_cases, inst_cases = [], [], []
+packages, path_cases, inst_cases, raw_cases = [], [], [], []
 maxn = 4 if tier == "quick" else 7
 for si, routes in enumerate(sets):
     name = "r%d" % si
@@ -124,10 +127,15 @@ for si, routes in enumerate(sets):
                 continue
             for mi in (0, 1):
                 inst_cases.append([si, ti, lens, mi])
+        if np > 0:
+            for rk in range(5):
+                for mi in (0, 1):
+                    for pi in (0, 1):
+                        raw_cases.append([si, ti, rk, mi, pi])
 print(json.dumps({
     "packages": packages,
-    "cases": {tier: [{"entry": "HPath", "args": path_cases}, {"entry": "HInst", "args": inst_cases}]},
+    "cases": {tier: [{"entry": "HPath", "args": path_cases}, {"entry": "HInst", "args": inst_cases}, {"entry": "HRawInst", "args": raw_cases}]},
     "bounds": {"route_sets": "%d curated + %d seeded-random sets over statics a,b,ab and parameter forms {x}, a{x}, {x}.j, {x}-{y}; 1..3 segments, 2..4 templates, methods from GET/POST (VERIF_SEED selects the random part)" % (len(CURATED), nrandom),
                "request_paths": "'/' followed by 0..%d fully symbolic bytes (all 256 values), methods GET/POST/PUT%s, with and without the /api prefix" % (maxn, "" if tier == "quick" else "/OPTIONS"),
-               "instances": "every template instantiated with symbolic argument values of 1..2 bytes that avoid '/' and the set's tail characters"}
+               "escaped": "every template instance whose first argument is written with a percent-escape (%2F, %2f, %41, a%20b, %c3%A9) sent as RawPath+Path, with and without the /api prefix", "instances": "every template instantiated with symbolic argument values of 1..2 bytes that avoid '/' and the set's tail characters"}
 }))
